@@ -347,7 +347,7 @@ def p_C09(ctx):
 
 
 def p_C14(ctx):
-    flow_trace(ctx, "sqrt", 4000, 80000, chunk=400)
+    flow_trace(ctx, "sqrt", 4500, 80000, chunk=400)
     levelb_sqrt(ctx)
 
 
@@ -366,7 +366,7 @@ def p_C01(ctx):
 
 
 def p_C02(ctx):
-    flow_trace(ctx, "pairing", 240, 4800, chunk=18, extra=["--focus", "vector"])
+    flow_trace(ctx, "pairing", 300, 5000, chunk=20, extra=["--focus", "vector"])
     if not ctx.quick():
         # the pairing specification itself, instantiated on a toy BN curve on native integers (no Java): bilinearity grid
         flow_model(ctx, "MC_Toy82", workers=9, timeout=3600, xmx="6g", label="MC_Toy82")
